@@ -363,7 +363,14 @@ class StreamResponse(
         self._req = request
         writer = self._payload_writer = request._payload_writer
 
-        await self._prepare_headers()
+        try:
+            await self._prepare_headers()
+        except BaseException:
+            # Nothing was sent: the response is not started. Otherwise a later
+            # prepare() would pretend it is and write_eof() would send nothing.
+            self._req = None
+            self._payload_writer = None
+            raise
         await request._prepare_hook(self)
         await self._write_headers()
 
